@@ -73,7 +73,7 @@ Definition property (sc : scen) (o : obs) : verdict :=
   let p3 :=
     match winner sc o with
     | Some j =>
-        if clean && sc_hw sc && (o_eof o =? 1) then
+        if clean && sc_hw sc && (o_eof o =? 1) && (sc_failafter sc <? 0) then
           match find_pos (is_ev 3 j 31) (o_events o) 0 with
           | Some pos =>
               let before := firstn pos (o_events o) in
@@ -86,8 +86,22 @@ Definition property (sc : scen) (o : obs) : verdict :=
         else true
     | None => true
     end in
-  (* 4: the stream ends on a frame boundary *)
-  let p4 := negb (clean && (o_eof o =? 1)) || (o_garbage o =? 0) in
+  (* 3 (cont.): Close returns only after the writer has finished (its exit point precedes the
+     return point of the winning Close in the log, whose order respects happens-before) *)
+  let p3b :=
+    match winner sc o with
+    | Some j =>
+        match find_pos (is_ev 3 j 35) (o_events o) 0 with
+        | Some pos =>
+            let before := firstn pos (o_events o) in
+            (negb (sc_hw sc) || negb (Nat.eqb (count_ev 1 0 18 before) 0))
+            && (negb (sc_hr sc) || negb (Nat.eqb (count_ev 2 0 23 before) 0))
+        | None => true
+        end
+    | None => true
+    end in
+  (* 4: the stream ends, and on a frame boundary *)
+  let p4 := (negb (clean && (o_eof o =? 1)) || (o_garbage o =? 0)) && (o_nofin o =? 0) in
   (* 5: inbound frames delivered once, in wire order, bound to this connection, intact *)
   let p5 := is_prefix (o_delivered o) (input_frames sc) && (o_badendpoint o =? 0) in
   (* 6: counters equal what crossed the wire *)
@@ -106,7 +120,7 @@ Definition property (sc : scen) (o : obs) : verdict :=
     end in
   vjoin (check_that p1 (VPropFail 1))
  (vjoin (check_that p2 (VPropFail 2))
- (vjoin (check_that p3 (VPropFail 3))
+ (vjoin (check_that (p3 && p3b) (VPropFail 3))
  (vjoin (check_that p4 (VPropFail 4))
  (vjoin (check_that p5 (VPropFail 5))
         (check_that p6 (VPropFail 6)))))).
